@@ -1265,6 +1265,7 @@ func runC16(args []string) error {
 		"ctx":  g.ctxCases(40 * s),
 		"cc":   g.ccCases(200 * s),
 		"tg":   g.tgCases(250 * s),
+		"ji":   g.jiCases(150 * s),
 		"dist": g.dist,
 		"keys": map[string]string{"error": hx(requestreply.ErrorMetadataKey), "has_error": hx(requestreply.HasErrorMetadataKey)},
 	}
